@@ -509,6 +509,10 @@ class Model:
             raise AnalysisError("module %s not found (vanished anchor)" % module_short)
         fn = m.functions.get(name)
         if fn is None:
+            # moved into another module of the package and imported back where it was
+            r = self.resolve_name(m, name)
+            if r is not None and r[0] == "func":
+                return r[1]
             raise AnalysisError("function %s.%s not found (vanished anchor)" % (module_short, name))
         return fn
 
